@@ -117,6 +117,9 @@ def check_tree(prop, tree, nodes, wit, *, spec=None, res: Result | None = None, 
     allnodes = view.reachable(tree)  # pre-order
     present = sorted({n._kind for n in allnodes})
     kinds = present + [k for k in gen.KINDS + ("k3",) if k not in present][:1] + list(ABSENT_KINDS)
+    # query with *equal but not identical* str objects (as parsed from a file / built at run time):
+    # the property is about equality of kinds, an implementation comparing with `is` must fail
+    kinds = [("".join(list(k)) + "_")[:-1] if isinstance(k, str) else k for k in kinds]
     root = tree._root
     tix = {id(n): i for i, n in enumerate(nodes)}
     plain, pix = None, {}
